@@ -1,4 +1,215 @@
 package main
 
-// runSelfValidation is filled in by mutants.go (thorough tier).
-func runSelfValidation(pc *propertyCheck, R *Run, repo, verif string) {}
+import (
+	"encoding/json"
+	"fmt"
+	"io"
+	"io/fs"
+	"os"
+	"os/exec"
+	"path/filepath"
+	"sort"
+	"strings"
+	"sync"
+)
+
+// Thorough tier: checker self-validation. Every catalogued mutant (mutants/*.diff: one broken instance each, still
+// compiling) and every confirmed seeded change (seeded/*/patch.diff) that names this property is applied to a scratch
+// copy of the analysed tree (outside /repo and /verif, removed at once, one checker process per variant); the
+// property's rules must report it. Behaviour-preserving variants must stay silent. The kill matrix goes into the
+// evidence; it never changes the exit code, which reflects the analysed tree only.
+
+type mutantEntry struct {
+	File    string   `json:"file"`
+	Expect  []string `json:"expect"`
+	Neutral bool     `json:"neutral"`
+	Props   []string `json:"props"`
+}
+
+type variantResult struct {
+	Name    string   `json:"name"`
+	Kind    string   `json:"kind"`
+	Expect  []string `json:"expected_rules,omitempty"`
+	Fired   []string `json:"rules_fired"`
+	Verdict string   `json:"verdict"`
+}
+
+func copyTree(src, dst string) error {
+	return filepath.WalkDir(src, func(p string, d fs.DirEntry, err error) error {
+		if err != nil {
+			return err
+		}
+		rel, _ := filepath.Rel(src, p)
+		if d.IsDir() {
+			switch d.Name() {
+			case ".git", "docs", "benchmarks":
+				if rel != "." {
+					return filepath.SkipDir
+				}
+			}
+			return os.MkdirAll(filepath.Join(dst, rel), 0o755)
+		}
+		if !d.Type().IsRegular() {
+			return nil
+		}
+		in, err := os.Open(p)
+		if err != nil {
+			return err
+		}
+		defer in.Close()
+		out, err := os.Create(filepath.Join(dst, rel))
+		if err != nil {
+			return err
+		}
+		defer out.Close()
+		_, err = io.Copy(out, in)
+		return err
+	})
+}
+
+func runVariant(self, repo, verif, prop, patch string) (fired []string, note string) {
+	dir, err := os.MkdirTemp("", "otterlint-variant-")
+	if err != nil {
+		return nil, "no scratch dir: " + err.Error()
+	}
+	defer os.RemoveAll(dir)
+	if err := copyTree(repo, dir); err != nil {
+		return nil, "copy failed: " + err.Error()
+	}
+	cmd := exec.Command("patch", "-p1", "-s", "-i", patch)
+	cmd.Dir = dir
+	if out, err := cmd.CombinedOutput(); err != nil {
+		return nil, "patch does not apply: " + strings.TrimSpace(string(out))
+	}
+	c := exec.Command(self, "-property", prop, "-tier", "quick", "-repo", dir, "-verif", verif, "-no-evidence")
+	c.Env = append(os.Environ(), "VERIF_TIER=quick")
+	out, _ := c.Output()
+	set := map[string]bool{}
+	for _, line := range strings.Split(string(out), "\n") {
+		if strings.HasPrefix(line, "VIOLATION") || strings.HasPrefix(line, "KNOWN-FINDING") {
+			continue
+		}
+		if i := strings.Index(line, ": C"); i >= 0 {
+			rest := line[i+2:]
+			if j := strings.Index(rest, ":"); j > 0 && j < 24 {
+				set[rest[:j]] = true
+			}
+		}
+	}
+	for r := range set {
+		fired = append(fired, r)
+	}
+	sort.Strings(fired)
+	return fired, ""
+}
+
+func runSelfValidation(pc *propertyCheck, R *Run, repo, verif string) {
+	self, err := os.Executable()
+	if err != nil {
+		R.Extra("self_validation", "unavailable: "+err.Error())
+		return
+	}
+	type job struct {
+		name, kind, patch string
+		expect            []string
+		neutral           bool
+	}
+	var jobs []job
+	// catalogue
+	if b, err := os.ReadFile(filepath.Join(verif, "mutants", "index.json")); err == nil {
+		idx := map[string]mutantEntry{}
+		if json.Unmarshal(b, &idx) == nil {
+			for name, e := range idx {
+				applies := false
+				for _, p := range e.Props {
+					if p == pc.id {
+						applies = true
+					}
+				}
+				for _, r := range e.Expect {
+					if strings.HasPrefix(r, pc.id+".") {
+						applies = true
+					}
+				}
+				if e.Neutral && len(e.Props) == 0 {
+					applies = true
+				}
+				if applies {
+					jobs = append(jobs, job{name, "mutant", filepath.Join(verif, "mutants", name+".diff"), e.Expect, e.Neutral})
+				}
+			}
+		}
+	}
+	// confirmed seeded changes
+	metas, _ := filepath.Glob(filepath.Join(verif, "seeded", "*", "meta.json"))
+	for _, m := range metas {
+		var meta struct {
+			Property string   `json:"property"`
+			CaughtBy []string `json:"caught_by_properties"`
+		}
+		b, err := os.ReadFile(m)
+		if err != nil || json.Unmarshal(b, &meta) != nil {
+			continue
+		}
+		applies := meta.Property == pc.id
+		for _, p := range meta.CaughtBy {
+			if p == pc.id {
+				applies = true
+			}
+		}
+		if applies {
+			jobs = append(jobs, job{filepath.Base(filepath.Dir(m)), "seeded", filepath.Join(filepath.Dir(m), "patch.diff"), nil, false})
+		}
+	}
+	sort.Slice(jobs, func(i, j int) bool { return jobs[i].name < jobs[j].name })
+	results := make([]variantResult, len(jobs))
+	sem := make(chan struct{}, 8)
+	var wg sync.WaitGroup
+	for i, j := range jobs {
+		wg.Add(1)
+		sem <- struct{}{}
+		go func(i int, j job) {
+			defer wg.Done()
+			defer func() { <-sem }()
+			fired, note := runVariant(self, repo, verif, pc.id, j.patch)
+			res := variantResult{Name: j.name, Kind: j.kind, Expect: j.expect, Fired: fired}
+			switch {
+			case note != "":
+				res.Verdict = "skipped: " + note
+			case j.neutral:
+				if len(fired) == 0 {
+					res.Verdict = "silent (behaviour preserving)"
+				} else {
+					res.Verdict = "FALSE ALARM"
+				}
+			case len(fired) > 0:
+				res.Verdict = "killed"
+			default:
+				res.Verdict = "SURVIVED"
+			}
+			results[i] = res
+		}(i, j)
+	}
+	wg.Wait()
+	killed, survived, silent, falseAlarm, skipped := 0, 0, 0, 0, 0
+	for _, r := range results {
+		switch {
+		case r.Verdict == "killed":
+			killed++
+		case r.Verdict == "SURVIVED":
+			survived++
+		case strings.HasPrefix(r.Verdict, "silent"):
+			silent++
+		case r.Verdict == "FALSE ALARM":
+			falseAlarm++
+		default:
+			skipped++
+		}
+	}
+	R.Extra("self_validation", map[string]any{
+		"variants": len(results), "killed": killed, "survived": survived, "neutral_silent": silent, "neutral_false_alarm": falseAlarm, "skipped": skipped,
+		"note":     "breaking variants must be reported by this property's rules, behaviour-preserving ones must not; informational - the exit code reflects the analysed tree only",
+		"results":  results,
+	})
+	fmt.Printf("self-validation %s: %d variants, %d killed, %d survived, %d neutral silent, %d neutral false alarms, %d skipped\n", pc.id, len(results), killed, survived, silent, falseAlarm, skipped)
+}
